@@ -227,6 +227,10 @@ class Program:
                 same = [f for f in c if f.crate == caller.crate]
                 if len(same) == 1: return same[0]
             raise Unsupported(f'ambiguous function {callee}: {[x.name for x in c]}')
+        # a re-exported free function (`liquid_core::model::try_find` is `model::find::try_find`): the only free function of that name
+        free = [f for f in cands if not f.impl_span and '{closure' not in f.name and [s for s in f.name.split('::') if s][-1] == method]
+        if len({f.name for f in free}) == 1 and len(segs) >= 2:
+            return free[0]
         return None
 
     @staticmethod
